@@ -4,6 +4,10 @@ from ..areas import tcp as T
 from ..extract import tcp as xtcp
 
 
+CONN_VALUES = [b"close", b"Close", b"CLOSE", b"TE, close", b"TE,close", b"close, TE", b" close", b"TE ,  close", b"upgrade, close, te",
+               b"keep-alive", b"Keep-Alive", b"keep-alive, Upgrade", b"Upgrade , Keep-Alive", b"TE", b"upgrade", b"TE, Keep-Alive"]
+
+
 class C12(core.Check):
     pid = "C12"
     pkg = "Tcp"
@@ -36,6 +40,22 @@ class C12(core.Check):
             (True, 8, [("conn", 1), ("svc",), ("tick", 8), ("svc",)]),
             (False, 8, [("conn", 1), ("svc",), ("tick", 1), ("req", 1), ("svc",), ("svc",), ("tick", 8), ("svc",), ("tick", 80), ("svc",)]),
             (False, 0, [("conn", 1), ("svc",), ("tick", 100), ("svc",)]),
+            # Connection header values are LISTS of options (RFC 7230): `TE, close` is not persistent, `Upgrade , Keep-Alive` on 1.0 is
+            (False, 8, [("conn", 1), ("svc",), ("reqh", 1, False, b"TE, close"), ("svc",), ("svc",), ("svc",), ("tick", 9), ("svc",)]),
+            (False, 8, [("conn", 1), ("svc",), ("cap", 1, 0), ("reqh", 1, False, b"TE, close"), ("svc",), ("tick", 8), ("svc",)]),
+            (True, 2, [("conn", 1), ("svc",), ("reqh", 1, True, b"Upgrade , Keep-Alive"), ("svc",), ("tick", 9), ("svc",), ("svc",)]),
+            (False, 2, [("conn", 1), ("svc",), ("data", 1, 3), ("reqh", 1, True, b"keep-alive"), ("svc",), ("tick", 5), ("svc",)]),
+            # a WireLog attached: inbound-only traffic in every window still counts as activity; idle still closes
+            (False, 8, [("conn", 1), ("svc",)] + [("tick", 7), ("data", 1, 2), ("svc",)] * 4 + [("tick", 8), ("svc",)], None, "std"),
+            (True, 8, [("conn", 1), ("svc",)] + [("tick", 7), ("data", 1, 2), ("svc",)] * 3 + [("tick", 8), ("svc",)], None, ("cfg", False, True, False, True, False)),
+            (False, 2, [("conn", 1), ("svc",), ("req10", 1), ("svc",), ("svc",), ("svc",)], "subclass", "raw"),
+            # every way of configuring the tymeout
+            (False, 3, [("conn", 1), ("svc",), ("tick", 3), ("svc",), ("tick", 40), ("svc",)], "none"),
+            (False, 3, [("conn", 1), ("svc",), ("tick", 2), ("svc",), ("tick", 1), ("svc",)], "subclass"),
+            (False, 3, [("conn", 1), ("svc",), ("tick", 2), ("svc",), ("tick", 1), ("svc",)], "classattr"),
+            (False, 3, [("conn", 1), ("svc",), ("tick", 2), ("svc",), ("tick", 1), ("svc",)], "servant"),
+            (False, 3, [("conn", 1), ("svc",), ("tick", 7), ("svc",), ("tick", 1), ("svc",)], "servant-default"),
+            (True, 3, [("conn", 1), ("svc",), ("tick", 7), ("svc",), ("tick", 1), ("svc",)], "servant-default"),
             # the server's tymeout is changed after construction: later connections get the new one, earlier ones keep theirs
             (False, 8, [("conn", 1), ("svc",), ("settmo", 2), ("conn", 2), ("svc",), ("tick", 2), ("svc",), ("tick", 6), ("svc",)]),
             (True, 0, [("conn", 1), ("svc",), ("settmo", 3), ("conn", 2), ("svc",), ("tick", 3), ("svc",)]),
@@ -88,7 +108,11 @@ class C12(core.Check):
                     ca = rng.choice(joined)   # at most one complete request per connection
                     if ca not in requested:
                         requested.add(ca)
-                        ops.append((rng.choice(["req", "req10", "req10"]), ca))
+                        if rng.random() < 0.5:
+                            # a Connection header: a comma separated list of options, any case, optional blanks, any order
+                            ops.append(("reqh", ca, rng.random() < 0.4, rng.choice(CONN_VALUES)))
+                        else:
+                            ops.append((rng.choice(["req", "req10", "req10"]), ca))
                 elif r < 0.65 and joined and tls != "real":
                     # how many bytes the peer lets through per send: blocked, dribble, a few, everything
                     ops.append(("cap", rng.choice(joined), rng.choice([0, 0, 1, 1, 3, 40, T.BIGCAP])))
@@ -120,13 +144,30 @@ class C12(core.Check):
                         tail.append(("cap", ca, rng.choice([0, 1, 3, T.BIGCAP])))
                     tail.append(("svc",))
                 ops += tail
-            yield (tls, tmo, ops)
+            # optional collaborators present / absent: a WireLog (any configuration) attached to the server and handed to every remoter
+            wlm = None
+            if tls in (False, True) and rng.random() < 0.4:
+                wlm = rng.choice(["std", "samed", "raw", ("cfg", False, False, False, True, True), ("cfg", False, False, False, False, True),
+                                  ("cfg", False, True, False, True, False), ("cfg", True, False, False, True, True)])
+            if wlm is not None:
+                route = rng.choice(T.ROUTES) if (tls is False and rng.random() < 0.5) else ("servant-default" if (tls is True and rng.random() < 0.3) else None)
+                yield (tls, tmo, ops, route, wlm)
+            elif tls is False and rng.random() < 0.5:
+                # how the server got its tymeout: constructor number, None (class default), subclass / class attribute override,
+                # a servant with its own tymeout or with tcp's default
+                yield (tls, tmo, ops, rng.choice(T.ROUTES))
+            elif tls is True and rng.random() < 0.3:
+                yield (tls, tmo, ops, "servant-default")
+            else:
+                yield (tls, tmo, ops)
 
     def request(self, case):
-        tls, tmo, ops = case
+        tls, tmo, ops = case[:3]
         if tls == "nd":
             return ("noop",)
-        return ("idle", tls is True, tmo, T.resp_len(), [tuple(o) for o in ops])
+        if len(case) > 3 and case[3]:
+            tmo = T.effective_tymeout(tmo, case[3])
+        return ("idle", tls is True, tmo, T.resp_len(), [tuple(o) for o in T.resolve_reqh(ops)])
 
     def compare_view(self, case, obs):
         if len(obs) == 2 and obs[0] == "EXC":
@@ -148,9 +189,11 @@ class C12(core.Check):
         idle >= tymeout at a service => closed after it, whatever is still queued; idle < tymeout => not closed by it, unless the
         HTTP layer is done with a non-persistent exchange (response completely accepted by the socket);
         persistent / tymeout 0 => never closed"""
-        tls, tmo, ops = case
+        tls, tmo, ops = case[:3]
         if len(obs) == 2 and obs[0] == "EXC":
             return ["escaped:" + obs[1]]
+        if len(case) > 3 and case[3]:
+            tmo = T.effective_tymeout(tmo, case[3])     # what the documented precedence gives the connections
         L = T.resp_len()
         bad = []
         now = 0
@@ -174,18 +217,24 @@ class C12(core.Check):
                 for s_ in state.values():
                     if s_["acc"] and s_["open"]:
                         s_["seen"] = now
-            elif k in ("data", "req", "req10"):
+            elif k in ("data", "req", "req10", "reqh"):
                 s_ = state.get(op[1])
                 if s_ and s_["acc"] and s_["open"]:
                     s_["und"] += 1
                     if k == "data":
                         s_["inhead"] = True
                     else:
-                        if k == "req" or s_["inhead"]:
+                        if k == "reqh":
+                            pers = T.connection_persistent(op[2], s_["inhead"], op[3])
+                        else:
+                            pers = k == "req" or s_["inhead"]
+                        if pers:
                             s_["undreq"] = True
                         else:
                             s_["und10"] = True
                         s_["inhead"] = False
+                elif s_ and k != "data" and not s_["acc"]:
+                    pass
             elif k == "svc":
                 for i, ca in enumerate(order):
                     s_ = state[ca]
@@ -243,7 +292,7 @@ class C12(core.Check):
         return sorted(set(bad))
 
     def nontrivial(self, case, obs):
-        tls, tmo, ops = case
+        tls, tmo, ops = case[:3]
         if len(obs) == 2 and obs[0] == "EXC":
             return True
         closed = any(e[0] == "closed" for st, snap in obs for e in snap)
@@ -252,14 +301,18 @@ class C12(core.Check):
         return closed or survived
 
     def features(self, case, obs):
-        tls, tmo, ops = case
+        tls, tmo, ops = case[:3]
         if len(obs) == 2 and obs[0] == "EXC":
             return ["escaped"]
         f = ["real-loopback" if tls == "real" else "non-dyadic-tyme" if tls == "nd" else "tls" if tls else "plain", "tymeout:%d" % tmo, "conns:%d" % sum(1 for o in ops if o[0] == "conn")]
         if obs:
             for x in obs[-1][1]:
                 f.append("end:" + x[0])
-        for kk in ("req10", "cap", "wind"):
+        if len(case) > 3 and case[3]:
+            f.append("route:" + case[3])
+        if len(case) > 4 and case[4]:
+            f.append("wirelog-attached")
+        for kk in ("req10", "reqh", "cap", "wind"):
             if any(o[0] == kk for o in ops):
                 f.append("op:" + kk)
         if any(e[0] == "open" and e[1] > 0 for st, snap in obs for e in snap):
@@ -275,15 +328,18 @@ class C12(core.Check):
         return f
 
     def shrink(self, case):
-        tls, tmo, ops = case
+        tls, tmo, ops = case[:3]
+        rest = tuple(case[3:])
         for i in range(len(ops)):
-            yield (tls, tmo, ops[:i] + ops[i + 1:])
+            yield (tls, tmo, ops[:i] + ops[i + 1:]) + rest
         for i, o in enumerate(ops):
             if o[0] == "tick" and o[1] > 0:
-                yield (tls, tmo, ops[:i] + [("tick", o[1] - 1)] + ops[i + 1:])
+                yield (tls, tmo, ops[:i] + [("tick", o[1] - 1)] + ops[i + 1:]) + rest
 
     def mutate(self, rng, case):
-        tls, tmo, ops = case
+        tls, tmo, ops = case[:3]
+        if len(case) > 3:
+            return list(self.shrink(case))[:40] + [tuple(case[:3])]
         return list(self.shrink(case))[:40] + ([(not tls, tmo, ops)] if tls != "real" else [(False, tmo, ops)])
 
 
